@@ -274,6 +274,7 @@ class Visitor(
         super().__init__()
         self._sources: typing.Mapping['dsl.Source', 'parser.Source'] = types.MappingProxyType(sources)
         self._features: typing.Mapping['dsl.Feature', 'parser.Feature'] = types.MappingProxyType(features)
+        self._references: dict['dsl.Reference', tuple['parser.Source', 'parser.Source']] = {}
 
     def resolve_feature(self, feature: 'dsl.Feature') -> 'parser.Feature':
         """Get a custom target code for a feature value.
@@ -495,7 +496,11 @@ class Visitor(
 
     def visit_reference(self, source: 'dsl.Reference') -> None:
         super().visit_reference(source)
-        origin, handle = self.generate_reference(self.context.symbols.pop(), source.name)
+        instance = self.context.symbols.pop()
+        if source not in self._references:
+            # features generated against this reference are cached, so its repeated occurrences must share the handle
+            self._references[source] = self.generate_reference(instance, source.name)
+        origin, handle = self._references[source]
         self.context.origins[source] = handle
         self.context.symbols.push(origin)
 
